@@ -34,3 +34,43 @@ Example glob_overlap_example :
               (mk_item (bs "refs/heads/aba") [] None) = Ok (true, Some (bs "refs/r/xby")) /\
   In x2a (bs "refs/heads/a*a") /\ In x2a (bs "refs/r/x*y").
 Proof. repeat split; vm_compute; tauto. Qed.
+
+(* Parsing a fetch refspec never panics, and an accepted refspec is balanced: source and destination
+   both contain a '*' or neither does ([wf_spec]); negative specs have no destination. *)
+Theorem parse_never_panics : forall spec, parse_fetch spec <> Panic /\ parse_fetch spec <> OutOfFuel.
+Proof. exact L_parse_no_panic. Qed.
+
+Theorem parsed_specs_are_balanced : forall spec r, parse_fetch spec = Ok r -> wf_spec r.
+Proof. exact L_parse_wf. Qed.
+
+(* MatchGroup::match_remotes returns normally for ALL balanced refspec lists and ALL remote references
+   (names, targets and peeled objects are arbitrary byte strings): none of the slice operations, `unreachable!`
+   arms or subtractions in Needle::matches / to_bstr_replace / match_remotes is reached in a panicking way. *)
+Theorem match_total : forall specs items, Forall wf_spec specs -> exists ms, match_remotes specs items = Ok ms.
+Proof. exact L_match_total. Qed.
+
+(* ... hence the whole pipeline (parse every refspec text, match, validate) never panics, for all inputs:
+   either some refspec is rejected with an error, or matching yields mappings. *)
+Theorem matching_never_panics : forall specs names,
+  (exists i e, parse_all specs 0 = Err (i, e)) \/
+  (exists parsed ms, parse_all specs 0 = Ok parsed /\ Forall wf_spec parsed /\
+                     match_remotes parsed (items_of_names 0 names) = Ok ms).
+Proof. exact L_pipeline_total. Qed.
+
+(* non-vacuity: a balanced glob spec, a partial name, an object id and a negative spec together *)
+Example match_example :
+  exists parsed ms,
+    parse_all [bs "+refs/heads/*:refs/remotes/o/*"; bs "x:heads/y"; bs "^refs/heads/b";
+               bs "0101010101010101010101010101010101010101:tags/t"] 0 = Ok parsed /\
+    Forall wf_spec parsed /\
+    match_remotes parsed (items_of_names 0 [bs "refs/heads/a"; bs "refs/heads/b"; bs "refs/tags/x"; bs "refs/heads/x"]) = Ok ms /\
+    map (fun m => (mlhs m, mrhs m)) ms =
+      [ (SObjectId (repeat x01 20), Some (bs "refs/tags/t"));
+        (SFullName (bs "refs/heads/a"), Some (bs "refs/remotes/o/a"));
+        (SFullName (bs "refs/heads/x"), Some (bs "refs/remotes/o/x"));
+        (SFullName (bs "refs/tags/x"), Some (bs "refs/heads/y")) ].
+Proof.
+  eexists. eexists. split; [vm_compute; reflexivity|]. split.
+  - repeat constructor; vm_compute; reflexivity.
+  - split; vm_compute; reflexivity.
+Qed.
